@@ -179,22 +179,29 @@ class _HebrewYearMonthDayCalculator(_YearMonthDayCalculator):
         )
         diff: int = int(end_total_months - start_total_months)
 
+        def compare_after_adding(months: int) -> int:
+            """compare(start + months, end); a result outside the calendar lies beyond end in the direction of travel."""
+            try:
+                return self.compare(self._add_months(start, months), end)
+            except OverflowError:
+                return 1 if months > 0 else -1
+
         if (self.compare(start, end)) <= 0:
             # Go backwards untill we've got a tight upper bound...
-            while self.compare(self._add_months(start, diff), end) > 0:
+            while compare_after_adding(diff) > 0:
                 diff -= 1
             # Go forwards until we've overshot
-            while self.compare(self._add_months(start, diff), end) <= 0:
+            while compare_after_adding(diff) <= 0:
                 diff += 1
             # Take account of the overshoot
             return diff - 1
         else:
             # Moving backwards, so we need to end up with a result greater than or equal to end...
             # Go forwards until we've got a tight upper bound...
-            while self.compare(self._add_months(start, diff), end) < 0:
+            while compare_after_adding(diff) < 0:
                 diff += 1
             # Go backwards until we've overshot
-            while self.compare(self._add_months(start, diff), end) >= 0:
+            while compare_after_adding(diff) >= 0:
                 diff -= 1
             # Take account of the overshoot
             return diff + 1
